@@ -696,6 +696,8 @@ fn check_eq(r: &mut Report, cx: &Ctx, a: &Template, ma: &[MPart], b: &Template, 
     }
 }
 
+const COUNTED: u64 = 1_000_000;
+
 fn seeded_case(r: &mut Report, seed: u64, i: u64) {
     let mut g = Rng::stream(seed, &[16, 1, i]);
     let sub = g.chance(1, 4);
@@ -713,7 +715,8 @@ fn seeded_case(r: &mut Report, seed: u64, i: u64) {
     let cx = Ctx { case: &case };
     r.eval();
     let nf = normal(&ma);
-    if nf.len() >= 2 {
+    // distinct normal forms are counted over the first COUNTED cases (bounds the hash set)
+    if nf.len() >= 2 && i < COUNTED {
         r.nontrivial(&nf);
     }
     if r.wants_sample() && nf.len() >= 3 && i < 64 {
@@ -859,7 +862,7 @@ fn unrelated_case(r: &mut Report, seed: u64, i: u64) {
         let tb = Template::new_ref(&pb);
         check_eq(r, &cx, &ta, &ma, &tb, &mb, "independent");
         let nf = normal(&ma);
-        if nf.len() >= 2 {
+        if nf.len() >= 2 && i < COUNTED / 16 {
             r.nontrivial(&nf);
         }
     }
@@ -1186,7 +1189,7 @@ fn main() {
         &args,
         "one evaluation = one seeded model (all its construction variants rendered through every writer, compared with a re-split, a one-edit \
          neighbour, an independent model and a re-split of the re-split, plus triples) or one unrelated pair or one fixed pair / literal call \
-         site; non-trivial = distinct normal forms with at least two parts",
+         site; non-trivial = distinct normal forms with at least two parts (counted over the first million seeded cases and the first million unrelated pairs)",
     );
     sanity(&mut r);
 
